@@ -134,6 +134,15 @@ class ExprMixin:
         if o.ty and o.ty.startswith("cls:"):
             yield from self.class_attr(st, o.ty[4:], attr, cx)
             return
+        if attr == "scheme" and (o.ty or "") == "ref:ParseResult":
+            yield st, self.o.str_(w.fun("url_scheme", "str", "str")(V.s(st.rd("$ipsrc", self.o.r(o)))))
+            return
+        if attr == "prefixlen" and (o.ty or "") == "ref:IPv4Network":
+            from .builtins_spec import ip_funs
+            n = ip_funs(w, "net")[2](V.s(st.rd("$ipsrc", self.o.r(o))))
+            st.assume(z3.And(n >= 0, n <= 32))
+            yield st, self.o.int_(n)
+            return
         if attr == "digest_size" and (o.ty or "") == "ref:Hasher":
             from .builtins_spec import hash_funs
             H, dsz = hash_funs(w)
